@@ -267,6 +267,9 @@ bool StepScript(InterpreterEnv& env)
     }
 
     if (env.successor_script.size()) {
+        // the script that just ended is a scriptSig: with SIGPUSHONLY it may consist of pushes only
+        if ((env.flags & SCRIPT_VERIFY_SIGPUSHONLY) && !env.scriptIn.IsPushOnly())
+            return set_error(serror, SCRIPT_ERR_SIG_PUSHONLY);
         if (env.successor_script.size() > MAX_SCRIPT_SIZE)
             return set_error(serror, SCRIPT_ERR_SCRIPT_SIZE);
         script = env.successor_script;
